@@ -105,4 +105,10 @@ CHECKS = {
         "certificate altered; secure-messaging dialogues of 1..12 command/response pairs with every Lc/Le form, counters in step / out of step / "
         "wrong parity and every protected octet flipped; password-protected containers with wrong passwords, wrong type and every octet altered.",
    note="Replay at the same counter is not claimed (MAC does not cover the counter by design)."),
+ "C02": dict(level="exploration",
+   technique="reference-model oracle (STB 34.101.45 over a naive affine curve model) with crafted generator tapes and model-decided verifier alterations under ASan",
+   text="3 curves x private keys {1, 2, q-1, random} x hashes {0, 1, q-1, q, q+1, 2^2l-1, random, crafted H >= q triples} x OIDs x generator "
+        "tapes (random, r bad candidates then a good one, all-bad, candidates in [q, p)); signatures must equal the model and verify; every "
+        "alteration of s0, s1, H, Q, OID, token, header is decided by the model on the altered input; DH symmetry, key transport round trip, IBS.",
+   note="belt-hash/wblock/kwp inside the model are the library's (tied to the standard by C01); appendix vectors exist for l = 128 only."),
 }
